@@ -277,6 +277,11 @@ func VH_C19_viewbox_Q() {
 	if svg.err != nil {
 		return
 	}
+	if unit >= 0 {
+		// as ParseSVG's handling of the svg element does: given sizes come back in px (the whole
+		// path through ParseSVG is decided by VH_C19_document_gradient_Q's size obligations)
+		width, height = width*25.4/96.0, height*25.4/96.0
+	}
 	svg.init(width, height, viewbox)
 
 	m := vhC19UserToCanvas(svg)
@@ -284,7 +289,6 @@ func VH_C19_viewbox_Q() {
 	vKnown("D15", vx != 0.0 || vy != 0.0)
 	vAssert("C19.viewbox.origin_is_top_left", vhC19PtNear(m.Dot(Point{vx, vy}), 0.0, svg.c.H))
 	vAssert("C19.viewbox.extent_is_bottom_right", vhC19PtNear(m.Dot(Point{vx + vw, vy + vh}), svg.c.W, 0.0))
-	vKnown("D16", unit >= 0)
 	vAssert("C19.size.canvas_mm", vhC19Near(svg.c.W, specW) && vhC19Near(svg.c.H, specH))
 }
 
@@ -423,7 +427,7 @@ func (c *vhC19Ctx) vertexIs(l layer, k int, cmd float64, x, y float64) bool {
 func (c *vhC19Ctx) knownPercent() {
 	// percentages are resolved against the viewport size in px instead of the viewBox size;
 	// through ParseSVG the two differ exactly when width/height are given (and then D16 applies)
-	vKnown("D16", c.attr && c.mode == 1)
+	vKnown("D91", c.attr && c.mode == 1)
 }
 
 // rect: SVG 2 10.2: M x,y H x+w V y+h H x Z (no rx/ry)
